@@ -118,10 +118,21 @@ func ExecuteRequest(ctx context.Context, req *thunderpb.ExecuteRequest, gqlSchem
 		}, nil
 	}, time.Hour, false)
 
-	<-done
+	// The rerunner never runs the computation if ctx is canceled first, so
+	// also stop waiting in that case. Stop waits for a computation that is in
+	// progress, after which done tells whether there is a response.
+	select {
+	case <-done:
+	case <-ctx.Done():
+	}
 
 	rerunner.Stop()
-	return queryResponse, queryError
+	select {
+	case <-done:
+		return queryResponse, queryError
+	default:
+		return nil, ctx.Err()
+	}
 }
 
 func (s *Server) Execute(ctx context.Context, req *thunderpb.ExecuteRequest) (*thunderpb.ExecuteResponse, error) {
